@@ -24,7 +24,8 @@ def main():
             env.update({k: str(v) for k, v in env_req.items()})
             env["VERIF_REPLAY_ENV_SET"] = "1"
             os.execve(sys.executable, [sys.executable, "-W", "ignore", "-m", "simkit.cli"] + sys.argv[1:], env)
-    sys.path.insert(0, "/repo")
+    # the package under test: /repo's working tree (VERIF_REPO lets the mutant matrix point at a scratch worktree)
+    sys.path.insert(0, os.environ.get("VERIF_REPO", "/repo"))
     from simkit import runner
     mod = importlib.import_module(f"checks.{prop.lower()}")
     return runner.main(mod, rest)
